@@ -95,7 +95,8 @@ Add(p) ==
         THEN /\ UNCHANGED <<streams, escc, pmtDirty, nextPid, changedSince, nauto>>
              /\ Quiet(op, "pidexists")
         ELSE /\ streams' = Append(streams, np)
-             /\ escc' = [q \in DOMAIN escc \cup {np} |-> IF q = np THEN 16 ELSE escc[q]]
+             /\ escc' = [q \in DOMAIN escc \cup {np} |->      \* a PID added again resumes its counter
+                           IF q = np THEN (IF np \in DOMAIN escc /\ ~HasDev("CCRestartOnReAdd") THEN escc[np] ELSE 16) ELSE escc[q]]
              /\ pmtDirty' = TRUE
              /\ nextPid' = IF auto THEN np + 1 ELSE nextPid
              /\ nauto' = IF auto THEN nauto + 1 ELSE nauto
@@ -108,11 +109,11 @@ Remove(p) ==
   /\ LET op == [op |-> "remove", pid |-> p] IN
      IF p \in SeqToSet(streams)
      THEN /\ streams' = SelectSeq(streams, LAMBDA q : q # p)
-          /\ escc' = [q \in DOMAIN escc \ {p} |-> escc[q]]
+          /\ UNCHANGED escc                                    \* the counter of a removed stream is remembered
           /\ pmtDirty' = TRUE /\ changedSince' = TRUE
           /\ out' = <<>> /\ ret' = [n |-> 0, err |-> "nil"] /\ partial' = 0
           /\ hist' = Append(hist, op @@ [pred |-> Pred(<<>>, 0, "nil", 0)])
-          /\ lastOut' = [q \in DOMAIN lastOut \ {p} |-> lastOut[q]]   \* a re-added stream may restart its counter
+          /\ lastOut' = lastOut
           /\ UNCHANGED <<seenTables, seenPES, lastPmtVerOut>>
      ELSE /\ UNCHANGED <<streams, escc, pmtDirty, changedSince>>
           /\ Quiet(op, "pidnotfound")
@@ -181,7 +182,7 @@ PesPkts(p, cc, len, h, a) ==
 WriteData(p, len, h, a) ==
   /\ nops < MaxOps /\ nops' = nops + 1
   /\ LET op == [op |-> "data", pid |-> p, len |-> len, hdr |-> h, af |-> a] IN
-     IF p \notin DOMAIN escc
+     IF p \notin SeqToSet(streams)
      THEN /\ Quiet(op, "pidnotfound")
           /\ UNCHANGED <<streams, escc, patCC, pmtCC, patVer, pmtVer, pmDirty, pmtDirty, pcr, nextPid, rtx, nauto, changedSince, sinceAuto>>
      ELSE LET force == AFRai(a) /\ p = pcr
